@@ -411,6 +411,323 @@ def systematic(B, S):
     return lists
 
 
+# ----------------------------------------------------------------------------- depth of return-bit names
+# names that look like a return bit and are none (the oracle's `is_ret`: "_ret" or prefix "_ret."): ordinary
+# identifiers, bound as intermediates (often twice) in the lists below
+LOOKALIKES = ("_retx", "_ret_1", "_ret1", "_ret0.1", "x._ret.0", "ret.0", "__ret", "_re", "_RET.0", "_rett.0.0.0.0",
+              "_ret_.0.0.0.0.0")
+RET_STYLES = {  # index at position i of a return name, by style
+    "zeros": lambda i: 0, "ones": lambda i: 1, "mixed": lambda i: (0, 1, 1, 0, 2, 1, 0, 3)[i % 8],
+    "multi": lambda i: (10, 0, 12, 1, 100, 11, 7, 255)[i % 8],
+}
+MAX_RET_DEPTH = 6
+
+
+def ret_name(idx):
+    return "_ret" + "".join(f".{i}" for i in idx)
+
+
+def ret_depth(n):
+    """number of indices of a return name"""
+    return n.count(".")
+
+
+def depth_lists(B, S):
+    """return names with 0 .. MAX_RET_DEPTH indices (single- and multi-digit), alone, all together and as the
+    complete name sets of nested container types, mixed with look-alike intermediates that are bound twice:
+    (family, list), the same for every seed"""
+    a, b, c, d, t = S("a"), S("b"), S("c"), S("d"), S("t")
+    out = []
+    k = 0
+    # one depth at a time, every index style; a sibling return of the same depth after a re-binding
+    for depth in range(MAX_RET_DEPTH + 1):
+        for style, f in RET_STYLES.items():
+            if depth == 0 and style != "zeros":
+                continue
+            idx = [f(i) for i in range(depth)]
+            la = S(LOOKALIKES[k % len(LOOKALIKES)])
+            k += 1
+            l = [(t, B.And(a, b)), (la, B.Or(t, c)), (S(ret_name(idx)), B.Xor(t, c, B.And(la, a))), (t, B.Or(a, c)),
+                 (la, B.And(t, B.Not(b)))]
+            if depth:
+                l.append((S(ret_name(idx[:-1] + [idx[-1] + 1])), B.Xor(la, a)))
+                if depth > 1:  # a shallower return in the same list
+                    l.append((S(ret_name(idx[:-2] + [idx[-2] + 1])), B.Or(la, B.And(t, c))))
+            else:  # the only return last
+                l = [l[0], l[1], l[3], l[4], (S("_ret"), B.Xor(t, c, B.And(la, a)))]
+            out.append(("depth1", l))
+    # every depth in one list (ascending, descending, interleaved with every look-alike, each bound twice)
+    for order in ("up", "down"):
+        depths = list(range(1, MAX_RET_DEPTH + 1))
+        if order == "down":
+            depths.reverse()
+        l = [(t, B.Xor(a, b))]
+        for i, depth in enumerate(depths):
+            la = S(LOOKALIKES[(i + (0 if order == "up" else 5)) % len(LOOKALIKES)])
+            f = RET_STYLES["mixed" if order == "up" else "multi"]
+            l.append((la, B.And(t, [a, b, c, d][i % 4]) if i % 2 else B.Or(t, [a, b, c, d][i % 4])))
+            l.append((S(ret_name([f(j) for j in range(depth)])), B.Xor(la, [b, c, d, a][i % 4])))
+            l.append((la, B.Xor(la, t, [c, d, a, b][i % 4])))
+            l.append((t, B.And(la, B.Not([d, a, b, c][i % 4]))))
+        out.append(("depthmix", l))
+    # every look-alike once: bound, read by a deep return, bound again, read by its deep sibling and a shallow one
+    for i, nm in enumerate(LOOKALIKES):
+        la = S(nm)
+        deep = [0] * (4 + i % 3)
+        out.append(("lookalike", [(la, B.And(a, b)), (S(ret_name(deep)), B.Xor(la, c)), (la, B.Or(a, b)),
+                                  (S(ret_name(deep[:-1] + [1])), B.And(la, c)), (S("_ret.1"), B.Not(la))]))
+    # complete name sets, as the front end lays them out
+    fs = [B.Xor(t, a), B.And(t, c), B.Or(t, d), B.Xor(a, c, d), B.And(a, B.Not(d)), B.Not(t), B.Or(B.Not(a), c), B.Xor(t, c, d)]
+
+    def named(names):
+        return [(t, B.And(a, b))] + [(S(n), fs[i % len(fs)] if i % 5 else B.Xor(fs[i % len(fs)], b)) for i, n in enumerate(names)]
+
+    cube = [ret_name([0, i, j, q]) for i in (0, 1) for j in (0, 1) for q in (0, 1)]
+    out.append(("container", named(cube + ["_ret.1"])))  # Tuple[Qmatrix[Qint2,2,2], bool]
+    out.append(("container", named([ret_name([0, 0, i, j]) for i in (0, 1) for j in (0, 1)] + ["_ret.0.1", "_ret.1"])))
+    out.append(("container", named([ret_name([i]) for i in range(13)])))  # a 13-tuple of bools
+    out.append(("container", named([ret_name([i, j]) for i in (0, 9, 10, 11) for j in (0, 1)])))  # Qlist[Qint2, 12]
+    out.append(("container", named([ret_name([1, 0, 10, j]) for j in (9, 10, 11)] + [ret_name([1, 0, 0, 0, 0, j]) for j in (0, 1)]
+                                   + [ret_name([1, 0, 0, 0, 0, 0, j]) for j in (0, 1)] + ["_ret.0"])))
+    return out
+
+
+DEPTH_PROGRAMS = [
+    # (name, source): return types whose bits have 0 .. 6 indices; the deep ones nest containers
+    ("d0", "def d0(a: Qint2, b: bool) -> bool:\n    c = a + 1\n    return (c > a) != b"),
+    ("d1", "def d1(a: Qint2, b: bool) -> Qint2:\n    c = a + 1\n    return c if b else a"),
+    ("d2", "def d2(a: Qint2, b: bool) -> Qlist[Qint2, 2]:\n    c = a + 1\n    return [c, a]"),
+    ("d3", "def d3(a: Qint2, b: bool) -> Qmatrix[Qint2, 2, 2]:\n    c = a + 1\n    return [[c, a], [a, c]]"),
+    ("d4m", "def d4m(a: Qint2, b: bool) -> Tuple[Qmatrix[Qint2, 2, 2], bool]:\n    c = a + 1\n    return ([[c, a], [a, c]], not b)"),
+    ("d4l", "def d4l(a: Qint2, b: bool) -> Tuple[Tuple[Qlist[Qint2, 2], bool], bool]:\n    c = a + 1\n    return (([c, a], b), not b)"),
+    ("d5", "def d5(a: Qint2, b: bool) -> Tuple[Tuple[Tuple[Qlist[Qint2, 2], bool], bool], bool]:\n"
+           "    c = a + 1\n    return ((([a, c], b), not b), b and a[0])"),
+    ("d5w", "def d5w(a: Qint2, b: bool) -> Tuple[Tuple[Qmatrix[Qint2, 2, 2], bool], Tuple[Tuple[Qlist[Qint2, 2], bool], bool]]:\n"
+            "    c = a + 1\n    return (([[a, a], [c, a]], b), (([a, c], b), not b))"),
+    ("d6", "def d6(a: Qint2, b: bool) -> Tuple[Tuple[Tuple[Tuple[Qlist[Qint2, 2], bool], bool], bool], bool]:\n"
+           "    c = a + 1\n    return (((([c, a], b), not b), a[1]), b)"),
+    ("d1w", "def d1w(a: bool, b: bool, c: bool) -> Tuple[bool, bool, bool, bool, bool, bool, bool, bool, bool, bool, bool, bool]:\n"
+            "    x = a and b\n    return (a, b, c, x, not a, b != c, c, x or c, a, b, x and c, x != c)"),
+    ("d2w", "def d2w(a: Qint2, b: bool) -> Qlist[Qint2, 11]:\n    c = a + 1\n    return [a, c, a, a, c, a, a, a, a, c, a + 2]"),
+]
+
+
+def _rand_ret_type(rng, depth):
+    """(annotation, expression) of a random nested return type over the variables a: Qint2, c = a + 1, b: bool"""
+    k = rng.random()
+    if depth <= 0 or k < 0.2:
+        if rng.random() < 0.5:
+            return "bool", rng.choice(["b", "not b", "a[0]", "b and a[1]", "a[0] != b", "c[1]"])
+        return "Qint2", rng.choice(["a", "c", "a + 2", "c + a"])
+    if k < 0.35:
+        return "Qlist[Qint2, 2]", "[" + ", ".join(rng.choice(["a", "c"]) for _ in range(2)) + "]"
+    if k < 0.45:
+        return "Qmatrix[Qint2, 2, 2]", "[[a, c], [" + rng.choice(["c, a", "a, a", "c, c"]) + "]]"
+    parts = [_rand_ret_type(rng, depth - 1) for _ in range(rng.randint(2, 3))]
+    return "Tuple[" + ", ".join(p[0] for p in parts) + "]", "(" + ", ".join(p[1] for p in parts) + ")"
+
+
+def random_depth_programs(rng, thorough):
+    out = []
+    for k in range(10 if thorough else 3):
+        ann, ex = _rand_ret_type(rng, rng.randint(2, 5))
+        if not ann.startswith("Tuple"):
+            ann, ex = f"Tuple[{ann}, bool]", f"({ex}, not b)"
+        out.append((f"rd{k}", f"def rd{k}(a: Qint2, b: bool) -> {ann}:\n    c = a + 1\n    return {ex}"))
+    return out
+
+
+def random_depth_lists(rng, B, S, thorough):
+    """random return names (0 .. 8 indices, values from single digits to three digits), random look-alike
+    intermediates (bound up to three times), random small right-hand sides"""
+    out = []
+    vals = (0, 0, 1, 1, 2, 3, 9, 10, 11, 12, 99, 100, 255)
+    for _ in range(60 if thorough else 10):
+        inputs = [S(x) for x in "abcd"[: rng.randint(2, 4)]]
+        inter = [S(x) for x in rng.sample(LOOKALIKES + ("t", "u"), rng.randint(1, 3))]
+        names = []
+        while len(names) < rng.randint(1, 6):
+            n = ret_name([rng.choice(vals) for _ in range(rng.randint(0, 8))])
+            if n not in names:
+                names.append(n)
+        readable, l = list(inputs), []
+        for n in names:
+            for _ in range(rng.randint(0, 2)):
+                nm = rng.choice(inter)
+                l.append((nm, gen_expr(rng, B, readable, 2)))
+                if nm not in readable:
+                    readable.append(nm)
+            l.append((S(n), gen_expr(rng, B, readable, rng.randint(1, 2))))
+        out.append(("rdepth", l))
+    return out
+
+
+def describe_depth(lists):
+    """the input distribution of the return-name depth slice"""
+    out = {}
+    for fam, exps in lists:
+        d = out.setdefault(fam, dict(lists=0, return_symbols=0, indices_of_a_return_name={}, multi_digit_index=0,
+                                     lookalike_intermediates={}, lookalikes_bound_more_than_once=0, definitions=0))
+        names = [s.name for s, _ in exps]
+        d["lists"] += 1
+        d["definitions"] += len(names)
+        for n in names:
+            if is_ret(n):
+                d["return_symbols"] += 1
+                k = str(ret_depth(n))
+                d["indices_of_a_return_name"][k] = d["indices_of_a_return_name"].get(k, 0) + 1
+                d["multi_digit_index"] += any(len(p) > 1 for p in n.split(".")[1:])
+        for n in sorted(set(names)):
+            if not is_ret(n) and ("ret" in n.lower() or n == "_re"):
+                d["lookalike_intermediates"][n] = d["lookalike_intermediates"].get(n, 0) + 1
+                d["lookalikes_bound_more_than_once"] += names.count(n) > 1
+    for d in out.values():
+        d["indices_of_a_return_name"] = dict(sorted(d["indices_of_a_return_name"].items(), key=lambda kv: int(kv[0])))
+    return out
+
+
+# ----------------------------------------------------------------------------- Or of two Ands of different arities
+XOR_ONLY = frozenset(["transform_or2xor", "defaultOptimizer", "fastOptimizer"])
+ARITY_PAIRS = ((2, 3), (2, 4), (3, 4))
+ARITY_PAIRS_THOROUGH = ((2, 5), (3, 5), (4, 5))
+
+
+def _pols(n):
+    return list(itertools.product((False, True), repeat=n))
+
+
+def arity_lists(B, S, thorough):
+    """`Or(And(short), And(complements of short + extra literals))` for the arity pairs (m, n): which of the first n
+    variable names are the extra ones (every subset: sympy sorts the literals, so this decides where the
+    complementary literals stand in the longer And), every polarity of every literal; `near`: one of the
+    complements not complemented; `uneval`: the same trees built without evaluation, the extra literals at every
+    position and the Or in both orders; `ctx`: under Not / And / Xor / ITE with one more variable.
+    (family, list, info), the same for every seed"""
+    N = B.Not
+    R = S("_ret")
+    out = []
+
+    def lit(v, neg):
+        return N(v) if neg else v
+
+    pairs = ARITY_PAIRS + (ARITY_PAIRS_THOROUGH if thorough else ())
+    for m, n in pairs:
+        vs = [S(x) for x in "abcde"[:n]]
+        five = n == 5
+        for extra_pos in itertools.combinations(range(n), n - m):
+            xs = [v for i, v in enumerate(vs) if i not in extra_pos]
+            ys = [vs[i] for i in extra_pos]
+            for ip, sp in enumerate(_pols(m)):
+                if five and ip not in (0, 2 ** m - 1, 1, 2 ** m - 2):
+                    continue
+                short = [lit(x, p) for x, p in zip(xs, sp)]
+                comp = [lit(x, not p) for x, p in zip(xs, sp)]
+                for ep in _pols(n - m):
+                    if five and len(set(ep)) > 1 and ip not in (0, 2 ** m - 1):
+                        continue
+                    ext = [lit(y, p) for y, p in zip(ys, ep)]
+                    info = dict(arity=f"{m}v{n}", extra_at="".join(map(str, extra_pos)), variables=n)
+                    out.append(("arity", [(R, B.Or(B.And(*short), B.And(*(comp + ext))))], dict(info, kind="evaluated")))
+                    if ip in (0, 2 ** m - 1) or thorough:
+                        for j in range(m if thorough else 1):
+                            jj = (j + len(out)) % m
+                            near = list(comp)
+                            near[jj] = short[jj]
+                            out.append(("arity", [(R, B.Or(B.And(*short), B.And(*(near + ext))))], dict(info, kind="near-miss")))
+                    # built without evaluation: the position of the extra literals and the order of the Or as given
+                    if five or (n - m == 2 and ep in ((False, True),) and not thorough) or (m == 3 and sp.count(True) == 2 and not thorough):
+                        continue
+                    long_args = []
+                    ci, ei = iter(comp), iter(ext)
+                    for i in range(n):
+                        long_args.append(next(ei) if i in extra_pos else next(ci))
+                    s_and = B.And(*short, evaluate=False)
+                    l_and = B.And(*long_args, evaluate=False)
+                    for first_short in (True, False):
+                        e = B.Or(s_and, l_and, evaluate=False) if first_short else B.Or(l_and, s_and, evaluate=False)
+                        out.append(("arity", [(R, e)], dict(info, kind="unevaluated", order="short-first" if first_short else "long-first")))
+    # in context, through intermediates, with a fifth variable
+    a, b, c, d, e5, t, u = (S(x) for x in ("a", "b", "c", "d", "e", "t", "u"))
+    for m, n in ARITY_PAIRS:
+        vs = [a, b, c, d][:n]
+        for neg_short in (False, True):
+            for neg_ext in (False, True):
+                short = [lit(x, neg_short) for x in vs[:m]]
+                long_ = [lit(x, not neg_short) for x in vs[:m]] + [lit(y, neg_ext) for y in vs[m:]]
+                p = B.Or(B.And(*short), B.And(*long_))
+                info = dict(arity=f"{m}v{n}", extra_at="".join(map(str, range(m, n))), variables=5, kind="context")
+                out.append(("arity", [(R, N(p))], info))
+                out.append(("arity", [(R, B.Xor(p, e5))], info))
+                out.append(("arity", [(R, B.And(p, e5))], info))
+                out.append(("arity", [(R, B.ITE(e5, p, vs[0]))], info))
+                out.append(("arity", [(t, B.And(*short)), (u, B.And(*long_)), (R, B.Or(t, u))], info))
+                out.append(("arity", [(t, B.And(*long_[m:])), (S("_ret.0"), B.Or(B.And(*short), B.And(t, *long_[:m]))),
+                                      (S("_ret.1"), B.Xor(t, e5))], info))
+    return out
+
+
+ARITY_PROGRAMS = [
+    ("x23n", "def x23n(a: bool, b: bool, c: bool) -> bool:\n    return (a and b) or (not a and not b and not c)"),
+    ("x23p", "def x23p(a: bool, b: bool, c: bool) -> bool:\n    return (not a and not b) or (a and b and not c)"),
+    ("x23m", "def x23m(a: bool, b: bool, c: bool) -> bool:\n    return (b and c) or (not a and not b and not c)"),
+    ("x23x", "def x23x(a: bool, b: bool, c: bool) -> bool:\n    return (a and not b) or (not a and b and c)"),
+    ("x24", "def x24(a: bool, b: bool, c: bool, d: bool) -> bool:\n    return (a and b) or (not a and not b and not c and not d)"),
+    ("x24t", "def x24t(a: bool, b: bool, c: bool, d: bool) -> bool:\n    x = not c and not d\n    return (a and b) or (not a and not b and x)"),
+    ("x34", "def x34(a: bool, b: bool, c: bool, d: bool) -> bool:\n    return (a and b and c) or (not a and not b and not c and not d)"),
+    ("x34q", "def x34q(a: Qint2, b: Qint2) -> bool:\n    return (a[0] and a[1] and b[0]) or (not a[0] and not a[1] and not b[0] and b[1])"),
+    ("x25", "def x25(a: bool, b: bool, c: bool, d: bool, e: bool) -> Tuple[bool, bool]:\n"
+            "    return ((a and b) or (not a and not b and not c and not d and not e), (d and e) or (not d and not e and a))"),
+]
+
+
+def random_arity_lists(rng, B, S, thorough):
+    """random arity pairs 2 <= m < n <= 5 over a random choice and order of the names a .. e, random polarities, a
+    random number of damaged complements (mostly none), the pattern at a random place of a small context"""
+    out = []
+    R = S("_ret")
+    for _ in range(150 if thorough else 24):
+        n = rng.randint(3, 5)
+        m = rng.randint(2, n - 1)
+        vs = [S(x) for x in rng.sample("abcde", n)]
+        short = [B.Not(x) if rng.random() < 0.5 else x for x in vs[:m]]
+        comp = [B.Not(x) for x in short]
+        dmg = 0
+        if rng.random() < 0.25:
+            dmg = 1
+            comp[rng.randrange(m)] = rng.choice(short + vs[m:])
+        ext = [B.Not(y) if rng.random() < 0.6 else y for y in vs[m:]]
+        ev = rng.random() < 0.6
+        args = comp + ext
+        if not ev:
+            rng.shuffle(args)
+        kw = {} if ev else dict(evaluate=False)
+        ands = [B.And(*short, **kw), B.And(*args, **kw)]
+        if rng.random() < 0.5:
+            ands.reverse()
+        p = B.Or(*ands, **kw)
+        w = S(rng.choice("abcde"))
+        ctxk = rng.randrange(5)
+        e = [p, B.Not(p), B.Xor(p, w), B.And(p, w), B.ITE(w, p, B.Not(w))][ctxk]
+        out.append(("rarity", [(R, e)], dict(arity=f"{m}v{n}", variables=n, kind=("evaluated" if ev else "unevaluated") + ("+damaged" if dmg else "")
+                                             + ("+context" if ctxk else ""))))
+    return out
+
+
+def describe_arity(lists):
+    out = {}
+    for fam, _exps, info in lists:
+        d = out.setdefault(fam, dict(lists=0, arity_pair={}, kind={}, variables={}, extra_literals_at={}))
+        d["lists"] += 1
+        for k, key in (("arity_pair", "arity"), ("kind", "kind"), ("variables", "variables"), ("extra_literals_at", "extra_at")):
+            if key in info:
+                v = str(info[key])
+                d[k][v] = d[k].get(v, 0) + 1
+    for d in out.values():
+        for k in ("arity_pair", "kind", "variables", "extra_literals_at"):
+            d[k] = dict(sorted(d[k].items()))
+    return out
+
+
 # ----------------------------------------------------------------------------- size thresholds x re-binding
 def _lit(rnd, B, leaves):
     x = rnd.choice(leaves)
@@ -1210,6 +1527,20 @@ def run(ctx: Ctx) -> Result:
         profiles = shipped_profiles(ctx, lib, res)
         head = [("sys", l) for l in systematic(B, S)]
         head += [("front:" + n, l) for n, l in front_end_lists(ctx, lib, res)]
+        # depth of return-bit names: systematic lists + front-end programs (same for every seed), random variants
+        dl = depth_lists(B, S) + [("frontdepth", exps) for _, exps in front_end_lists(ctx, lib, res, DEPTH_PROGRAMS)]
+        rdl = random_depth_lists(rng, B, S, ctx.thorough)
+        rdl += [("rfrontdepth", exps) for _, exps in front_end_lists(ctx, lib, res, random_depth_programs(rng, ctx.thorough))]
+        res.extra["return_name_depth_slice"] = describe_depth(dl + rdl)
+        # Or of two Ands of different arities: the single step and both profiles
+        al = arity_lists(B, S, ctx.thorough)
+        al += [("frontarity", exps, dict(kind="front-end program", variables=len(free_syms(defs_json(exps)))))
+               for _, exps in front_end_lists(ctx, lib, res, ARITY_PROGRAMS)]
+        ral = random_arity_lists(rng, B, S, ctx.thorough)
+        res.extra["or_arity_slice"] = describe_arity(al + ral)
+        head_more = [(fam, exps, ALL_STEPS, True) for fam, exps in dl]
+        head_more += [(fam, exps, ALL_STEPS if fam == "frontarity" else XOR_ONLY, True) for fam, exps, _ in al]
+        rand_more = [(fam, exps, ALL_STEPS, True) for fam, exps in rdl] + [(fam, exps, XOR_ONLY, True) for fam, exps, _ in ral]
         rand = []
         n_rand = 1500 if ctx.thorough else 160
         for k in range(n_rand):
@@ -1234,8 +1565,8 @@ def run(ctx: Ctx) -> Result:
         # small lists first: the first failing input reported is a small one
         sized = [x for _, x in sorted(enumerate(sized), key=lambda ix: (list_ops(ix[1][1]), ix[0]))]
         # order: systematic slices, then the random parts
-        lists = [(tag, exps, ALL_STEPS, True) for tag, exps in head] + sized
-        lists += [(tag, exps, ALL_STEPS, True) for tag, exps in rand] + rsized
+        lists = [(tag, exps, ALL_STEPS, True) for tag, exps in head] + head_more + sized
+        lists += [(tag, exps, ALL_STEPS, True) for tag, exps in rand] + rand_more + rsized
         reqs, checks, pend = [], [], []
         volume = 0
         spent = {}  # seconds per family (QV_C04_TIMING=1 prints them)
@@ -1266,6 +1597,11 @@ def run(ctx: Ctx) -> Result:
                      f"more than {BIG_OPS} operations whose point is the re-binding go through merge_expressions, apply_cse and "
                      "defaultOptimizer only (the transformers and fastOptimizer see every ladder size in the families size1 and "
                      "the small lists), without the step-by-step re-run and the per-definition model tie")
+    res.notes.append(f"return-name depth slice (coverage.return_name_depth_slice): return bits with 0..{MAX_RET_DEPTH} indices (random: up "
+                     "to 8), single- and multi-digit, mixed with look-alike intermediates bound twice, lists and front-end programs "
+                     "with nested container return types, through every step and both profiles; Or-arity slice "
+                     "(coverage.or_arity_slice): Or of two Ands of arities 2v3, 2v4, 3v4 (thorough: up to 4v5) with complementary "
+                     "common literals, every polarity and position, through transform_or2xor and both profiles")
     return res
 
 
